@@ -42,11 +42,11 @@ pub fn check_enc(drv: &mut Driver, ev: &mut Ev, case: &EncCase, enumerated: bool
     if runs.iter().any(|r| r.fail_of(&[FailKind::Panic, FailKind::Stuck]).is_some()) { ev.count("fill-diff.aborted(panic/stuck: C06/C08)"); return; }
     for k in 1..3 {
         if runs[k].calls != runs[0].calls || runs[k].bytes != runs[0].bytes || runs[k].items != runs[0].items {
-            ev.violation("fill-diff", &format!("encode:{}:{}", case.enc.output_encoding().name(), if case.src16 { "utf16" } else { "utf8" }), format!("results depend on the destination's old contents: fill {:02x} gives {} / {}, fill 00 gives {} / {} | {}", FILLS[k], hex(&runs[k].bytes), fmt_calls(&runs[k].calls), hex(&runs[0].bytes), fmt_calls(&runs[0].calls), case.describe()));
+            ev.violation("fill-diff", &format!("encode:{}:{}", crate::c01::ofam(case.enc), if case.src16 { "utf16" } else { "utf8" }), format!("results depend on the destination's old contents: fill {:02x} gives {} / {}, fill 00 gives {} / {} | {}", FILLS[k], hex(&runs[k].bytes), fmt_calls(&runs[k].calls), hex(&runs[0].bytes), fmt_calls(&runs[0].calls), case.describe()));
             return;
         }
     }
-    ev.state(H::new().s(case.enc.output_encoding().name()).u(case.src16 as u64).u(case.repl as u64).u(3).get(), || format!("encode {} src16={} repl={}", case.enc.output_encoding().name(), case.src16, case.repl));
+    ev.state(H::new().s(crate::c01::ofam(case.enc)).u(case.src16 as u64).u(case.repl as u64).u(3).get(), || format!("encode {} src16={} repl={}", crate::c01::ofam(case.enc), case.src16, case.repl));
 }
 pub fn check_mem(drv: &mut Driver, ev: &mut Ev, f: MemFn, src: &Src, dl: usize, sa: usize, da: usize, enumerated: bool) {
     let tr = ev.case(); ev.api_calls += 3;
